@@ -1,6 +1,6 @@
 """C10 — busy-circuit protocol and exception safety of placement calls."""
 VARIANT = "san"
-GEN = ["Api"]
+GEN = ["Api", "ApiExpansion", "ApiSizes", "WriteSets"]
 RULE = "see stats"
 PARTIAL = [
     "`failed_legalize_leaves_placement` (third clause) is C01's `failed_legalize_unchanged` restated: a theorem about the "
@@ -11,9 +11,27 @@ PARTIAL = [
     "legalize and the legalization step of placeDetailed): placement and every member compared before/after.  The failing "
     "legalization inside placeDetailed is covered by the oracle and by C19's `rejected_before_work`/entry-point IR "
     "(DetailedPlacer::place starts with DetailedPlacer::legalize), not by a separate theorem.",
-    "'the circuit is internally consistent' after a call is checked by the oracle (Circuit::check() + all structural "
-    "setters accepted + a further placement call); the IR abstracts the circuit to its write history, so consistency of "
-    "the member vectors is not a theorem.",
+    "'the circuit is internally consistent' is a theorem for the SIZES of the member vectors: `SizesConsistent` (the eight "
+    "per-cell vectors have nbCells() entries; netLimits_ non-empty, one weight per net, the three per-pin vectors have "
+    "netLimits_.back() entries) is established by the constructor (`constructor_sizes_consistent`), preserved by every setter "
+    "and expansion method for all arguments whether it returns or throws (`setter_preserves_sizes`) and holds after any history "
+    "of public API calls incl. refused calls, callbacks and nested placement calls to any depth "
+    "(`sizes_consistent_after_any_history`); the 12 size clauses of Circuit::check() follow (`check_size_clauses_hold`, clauses "
+    "and the inline getters translated from the source).  The effect of each member write on the member's length is "
+    "regenerated from the AST (tools/gen/ApiSizes.py -> Gen/ApiSizes.lean, tied to Gen/Api by `sized_tables_erase_to_api`) and "
+    "executed by drv_C10 against the real member sizes for every setter call of every trace (`szset` lines).  NOT a theorem: "
+    "(a) the VALUE clauses of consistency — netLimits_.front() == 0 (the 13th clause of check()), netLimits_ sorted, pin cells "
+    "in range: these rest on the oracle (Circuit::check() after every call) and on C19's refusal theorems; (b) that the placers "
+    "change no length rests on `placer_writes_keep_lengths` over Gen/WriteSets (every write site reachable from a placement "
+    "call is an element write `m[i] = ..`, a scalar flag, or the in-use guard) — the step 'an element write cannot change "
+    "size()' is C++ semantics, and the completeness of the site scan is tools/gen/WriteSets.py's (trusted as for C03); (c) the "
+    "hypothesis `ArgsOk` (a vector argument has size() >= 0) is a representation invariant of `Arg.len : Int`, not a restriction; "
+    "(d) 'all structural setters accepted again + a further placement call runs' remains an oracle (the flag part is "
+    "`busy_released`).",
+    "The size theorems `constructor_sizes_consistent`/`setter_preserves_sizes` are proved by one uniform tactic block per table "
+    "entry (unfold the generated body, case split on every check, `omega`), not by a decidable syntactic condition: a source "
+    "change that keeps the invariant but needs non-linear reasoning would make the proof fail (reported as a broken tie, with "
+    "the harness searching for a concrete input) rather than be re-proved automatically.",
     "Nested placement calls (a callback calling placeGlobal/legalize/placeDetailed on the same circuit) are inside the modelled "
     "traces, to any depth: `busy_in_every_callback`, `nested_call_keeps_busy`, `placement_runs_stage_busy` need the re-entrant "
     "guard (fixes/c10-inuse-guard-reentrant.diff); on a tree whose guard clears the flag unconditionally these three theorems "
@@ -23,6 +41,9 @@ PARTIAL = [
     "the translator's member scan of src/coloquinte.cpp: every non-const void method of Circuit must be in its list.",
 ]
 ASSUMPTIONS = [
+    "sizes: `member[i] = x` does not change `member.size()`; `v = w` gives v the size of w; push_back/insert(end, first, last)/"
+    "clear/resize have their std::vector size semantics (tools/gen/ApiSizes.py maps each recognised shape to its length effect "
+    "and raises TranslateError or emits `anyLen` on anything else)",
     "the stage (GlobalPlacer::place, DetailedPlacer::legalize/place) is modelled as an arbitrary trace (Model/Busy.lean `Tr`) of "
     "callbacks, each running any setters with any arguments and any nested placement calls (whose stage is again an arbitrary "
     "trace) and possibly throwing, and may itself throw after any prefix; it does not touch isInUse_ (grep: the flag is written "
@@ -37,8 +58,14 @@ LEVEL_TEXT = ("Lean 4 theorems over the statement skeletons of the seven structu
               "the code by replaying every observed trace (callback throwing at every index of every stage, invalid "
               "parameters, infeasible legalization, nested calls from every callback index) through the model and diffing setter "
               "outcomes and the in-use flag after every call, nested or not; direct oracle incl. all members compared after "
-              "failed legalizations of nine infeasible shapes")
-LEVEL_NOTE = ("Trusted: Lean kernel (axioms propext/Classical.choice/Quot.sound), tools/gen/Api.py + clang-14 AST (the "
+              "failed legalizations of nine infeasible shapes.  Sizes: theorems over Gen/ApiSizes (length effect of every "
+              "member write of every setter, of the constructor and of the expansion API, regenerated from the AST) + "
+              "Gen/WriteSets (placer write sites) that the size invariant holds after any history of API calls; the size "
+              "semantics is executed by the driver for every observed setter call (outcome + 14 member lengths + "
+              "netLimits_.back() compared with the real object); direct oracle after every setter call and every placement "
+              "call, nested or not: every per-cell getter returns nbCells() entries")
+LEVEL_NOTE = ("Trusted: Lean kernel (axioms propext/Classical.choice/Quot.sound), tools/gen/Api.py, ApiSizes.py, ApiExpansion.py, "
+              "WriteSets.py + clang-14 AST (the "
               "translation of the setter bodies and of the RAII guard class: clearing -> scopeGuard, saving/restoring -> "
               "restoreGuard, anything else is an error), the abstraction of a stage to a trace; third clause: C01's model tie.")
 TECHNIQUE = "Lean 4 proof over translated IR (decidable syntactic conditions + generic semantic lemmas) + trace correspondence"
